@@ -251,7 +251,7 @@ func GetAttrString(self Object, key string) (res Object, err error) {
 		objectValue := reflect.ValueOf(self)
 		methodValue := objectValue.MethodByName("M" + key)
 		if methodValue.IsValid() {
-			return newBoundMethod(key, methodValue.Interface())
+			return newBoundMethod(key, self, methodValue.Interface())
 		}
 	}
 
